@@ -227,10 +227,12 @@ where
     }
 
     fn clear_sources(&self, subscriber: &AnySubscriber) {
-        self.reactivity
-            .write()
-            .or_poisoned()
-            .sources
-            .clear_sources(subscriber);
+        // Take the sources out under our own lock, but unsubscribe from them only
+        // after releasing it: a source that is notifying its subscribers holds its
+        // lock while it locks each of them, so locking a source while still holding
+        // our own lock is the reverse order and can deadlock with another thread.
+        let mut sources =
+            std::mem::take(&mut self.reactivity.write().or_poisoned().sources);
+        sources.clear_sources(subscriber);
     }
 }
